@@ -21,7 +21,7 @@ KW = {
         "required": [["a"], []], "minProperties": [1], "maxProperties": [2], "additionalProperties": [False],
         "dependencies": [{"a": ["b"]}],
     },
-    "String": {**COMMON, "format": ["uuid", "date-time"], "pattern": ["^a", 'q"\\'], "minLength": [0, 1], "maxLength": [2], "default": ["x", "", 1]},
+    "String": {**COMMON, "format": ["uuid", "date-time"], "pattern": ["^a", 'q"\\d'], "minLength": [0, 1], "maxLength": [2], "default": ["x", "", 1]},
     "Integer": {**COMMON, "minimum": [0, 1], "maximum": [2], "exclusiveMinimum": [0], "exclusiveMaximum": [3], "multipleOf": [2], "default": [1, 0, "x"]},
     "Number": {**COMMON, "minimum": [0.5], "maximum": [2.5], "exclusiveMinimum": [0], "exclusiveMaximum": [3.0], "multipleOf": [0.5], "default": [1.5, 0.0, 1]},
     "Boolean": {**COMMON, "default": [True, False]},
@@ -178,6 +178,33 @@ def _cls_composition_props():
     return Comp
 
 
+def _cls_default_inherit():
+    class DBase(Object, default={"a": 1}):
+        a = Property(Integer())
+        z = Property(String(default="zz"))
+
+    class DSub(DBase):
+        class_ = Property(Integer(default=4), source="class")
+
+    class DHolder(Object):
+        base = Property(DBase)
+        sub = Property(DSub)
+        num = Property(Number(), required=True)
+
+    return DHolder
+
+
+def _cls_pattern_overlap():
+    class Inner2(Object):
+        x_y = Property(Integer(default=1), source="x y")
+
+    class Overlap(Object, patternProperties={"^n": Element(minimum=0), "^o": Element(minProperties=0)}):
+        n = Property(Number())
+        o = Property(Inner2)
+
+    return Overlap
+
+
 def _inline():
     return Object.inline("Inl", properties={"a": Property(Integer(), required=True), "b_": Property(String(default="z"), source="b")}, additionalProperties=False)
 
@@ -186,7 +213,7 @@ def object_classes():
     return [
         ("Plain", _cls_plain), ("Renamed", _cls_renamed), ("ReqKw", _cls_required_kw), ("Kw", _cls_keywords), ("Add", _cls_additional_schema),
         ("CE", _cls_const_enum), ("Outer", _cls_nested), ("Holder", _cls_shared_twice), ("Child", _cls_inherit2), ("C3", _cls_inherit3),
-        ("D", _cls_default_obj), ("Comp", _cls_composition_props), ("Inl", _inline),
+        ("D", _cls_default_obj), ("Comp", _cls_composition_props), ("Inl", _inline), ("DHolder", _cls_default_inherit), ("Overlap", _cls_pattern_overlap),
     ]
 
 
